@@ -1,5 +1,5 @@
 (* Model/Uniform.v — executable model of the construction of uniform time axes in
-   nitime.timeseries (after commits ac47f31, a2201c3, 49ddd0e, 5c2f8bb, f768865, 5e20692, 4795614):
+   nitime.timeseries (after commits ac47f31, a2201c3, 49ddd0e, 5c2f8bb, f768865, 5e20692, 4795614, 8134179):
      UniformTime.__new__ 527-712 (argument-pattern validity 559-605, attributes taken from a
        given axis 607-626, unit resolution 628-645, interval/rate derivation 647-671, duration
        673-675, casts through the TimeArray constructor 677-683, sample count and samples 693-702,
@@ -85,14 +85,6 @@ Definition to_ps (u : unit) (v : pv) : tres Z :=
   | VInt z => scope62 (z * factor u)
   | VFlt f | VFreq f => match ctor_float1 (factor u) f with Some p => scope62 p | None => TScope end
   | VTime ps _ => scope62 ps
-  end.
-
-(* length * x *)
-Definition times_len (len : Z) (v : pv) : pv :=
-  match v with
-  | VInt z => VInt (len * z)
-  | VFlt f | VFreq f => VFlt (PrimFloat.mul (z2f len) f)
-  | VTime ps u => VTime (len * ps) u
   end.
 
 (* number of samples: max(0, -(-int(duration) // int(sampling_interval))); interval 0 -> ValueError *)
@@ -305,11 +297,11 @@ Definition ts_new (a : ts_args) : tres series :=
   let u := match uo with Some u => u | None => Us end in
   do sr <- derive u si rate dur (Some (s_len a)) true;
   let '(si', rate') := sr in
-  let dur' := match dur with Some d => d | None => times_len (s_len a) si' end in
   let t0' := match t0 with Some t => t | None => VInt 0 end in
   do dt_ps <- to_ps u si';
   do t0_ps <- to_ps u t0';
-  do dur_ps <- to_ps u dur';
+  (* the duration, when not given, is n * the whole-picosecond interval *)
+  do dur_ps <- match dur with Some d => to_ps u d | None => scope62 (s_len a * dt_ps) end;
   TOk (mk_series (s_len a) dt_ps t0_ps dur_ps (to_float rate') uo)
   end.
 
